@@ -3,6 +3,8 @@ package main
 import (
 	"fmt"
 	"go/ast"
+	"go/token"
+	"go/types"
 	"math/big"
 	"strconv"
 	"strings"
@@ -438,4 +440,192 @@ func clip(s string) string {
 		return s[:60] + "..." + s[len(s)-12:]
 	}
 	return s
+}
+
+// The named format constants mean what IEEE 754-2008 decimal128 (and the library's 35-digit extension) say:
+// bias 6176, largest biased exponent 12287, smallest 0, and maxDigits = the number of decimal digits of the
+// largest coefficient 5·2^111-1. Each is tagged with the properties of the functions that use it.
+func ruleFormatConsts(c *Ctx) {
+	p := c.P
+	maxCoef := new(big.Int).Sub(new(big.Int).Mul(big.NewInt(5), new(big.Int).Lsh(big.NewInt(1), 111)), big.NewInt(1))
+	want := map[string]int64{
+		"exponentBias": 6176, "maxBiasedExponent": 12287, "minBiasedExponent": 0,
+		"maxUnbiasedExponent": 6111, "minUnbiasedExponent": -6176, "maxDigits": int64(len(maxCoef.String())),
+	}
+	users := map[string]map[string]bool{}
+	for name, fd := range p.Funcs {
+		if fd.Body == nil {
+			continue
+		}
+		ast.Inspect(fd.Body, func(n ast.Node) bool {
+			if id, ok := n.(*ast.Ident); ok {
+				if o := p.Info.Uses[id]; o != nil && o.Parent() == p.Pkg.Types.Scope() {
+					if _, ok := want[o.Name()]; ok {
+						if users[o.Name()] == nil {
+							users[o.Name()] = map[string]bool{}
+						}
+						users[o.Name()][name] = true
+					}
+				}
+			}
+			return true
+		})
+	}
+	names := []string{"exponentBias", "maxBiasedExponent", "minBiasedExponent", "maxUnbiasedExponent", "minUnbiasedExponent", "maxDigits"}
+	for _, nm := range names {
+		props := []string{}
+		for fn := range users[nm] {
+			for _, pr := range funcProps(fn) {
+				if !hasProp(props, pr) {
+					props = append(props, pr)
+				}
+			}
+		}
+		if len(props) == 0 {
+			props = []string{"C12"}
+		}
+		sortStrings(props)
+		got, ok := p.pkgConstInt(nm)
+		if !ok {
+			if len(users[nm]) == 0 {
+				continue // a constant the library no longer has
+			}
+			c.undecided("const:"+nm, nil, nm+" is not an integer constant", props...)
+			continue
+		}
+		c.check(got == want[nm], "const:"+nm, nil, fmt.Sprintf("%s = %d", nm, got), fmt.Sprintf("%s = %d, the format needs %d (bias 6176, biased exponents 0..12287, %d digits in the largest coefficient 5·2^111-1); used by %d functions", nm, got, want[nm], want["maxDigits"], len(users[nm])), props...)
+	}
+}
+
+func sortStrings(s []string) {
+	for i := 1; i < len(s); i++ {
+		for j := i; j > 0 && s[j] < s[j-1]; j-- {
+			s[j], s[j-1] = s[j-1], s[j]
+		}
+	}
+}
+
+// uintN.log10: the digit-count estimate `l2*K >> S` from the bit length, corrected downwards by one table
+// comparison, is right for every value iff for every bit length L the estimate t satisfies
+// 10^(t-1) <= 2^(L-1) (one correction suffices) and 2^L - 1 < 10^(t+1) (never too small), and t indexes the
+// table. Checked for every L by constant evaluation of the extracted expression.
+func ruleLog10Estimate(c *Ctx) {
+	p := c.P
+	for _, name := range p.sortedFuncNames() {
+		fd := p.Funcs[name]
+		if fd.Body == nil || fd.Recv == nil || !strings.HasSuffix(name, ".log10") {
+			continue
+		}
+		limbs := limbsOf(p.Info.TypeOf(fd.Recv.List[0].Type))
+		if limbs == 0 {
+			continue
+		}
+		// est := <expr over one integer variable>, containing a right shift of a product
+		var estVar, lenVar types.Object
+		var estExpr ast.Expr
+		ast.Inspect(fd.Body, func(n ast.Node) bool {
+			as, ok := n.(*ast.AssignStmt)
+			if !ok || len(as.Lhs) != 1 || len(as.Rhs) != 1 || estExpr != nil {
+				return true
+			}
+			be, ok := ast.Unparen(as.Rhs[0]).(*ast.BinaryExpr)
+			if !ok || be.Op != token.SHR {
+				return true
+			}
+			var vars []types.Object
+			ast.Inspect(be, func(m ast.Node) bool {
+				if id, ok := m.(*ast.Ident); ok {
+					if v, ok := p.Info.Uses[id].(*types.Var); ok {
+						vars = append(vars, v)
+					}
+				}
+				return true
+			})
+			if len(vars) == 1 {
+				estVar, lenVar, estExpr = p.objOf(as.Lhs[0]), vars[0], be
+			}
+			return true
+		})
+		if estExpr == nil || estVar == nil {
+			continue
+		}
+		// the table the estimate indexes
+		var tab *constTable
+		ast.Inspect(fd.Body, func(n ast.Node) bool {
+			if ix, ok := n.(*ast.IndexExpr); ok && p.objOf(ix.Index) == estVar {
+				if o := p.objOf(ix.X); o != nil {
+					if t := p.constTableOf(o); t != nil {
+						tab = t
+					}
+				}
+			}
+			return true
+		})
+		props := funcProps(name)
+		key := "log10.estimate:" + name
+		if tab == nil {
+			c.undecided(key, fd, name+": the estimate is not compared with a power-of-ten table entry", props...)
+			continue
+		}
+		var eval func(e ast.Expr, l int64) (*big.Int, bool)
+		eval = func(e ast.Expr, l int64) (*big.Int, bool) {
+			e = ast.Unparen(e)
+			if v := p.constOf(e); v != nil {
+				return constBig(v)
+			}
+			switch x := e.(type) {
+			case *ast.Ident:
+				if p.objOf(x) == lenVar {
+					return big.NewInt(l), true
+				}
+			case *ast.BinaryExpr:
+				a, ok1 := eval(x.X, l)
+				b, ok2 := eval(x.Y, l)
+				if !ok1 || !ok2 {
+					return nil, false
+				}
+				switch x.Op {
+				case token.MUL:
+					return new(big.Int).Mul(a, b), true
+				case token.ADD:
+					return new(big.Int).Add(a, b), true
+				case token.SUB:
+					return new(big.Int).Sub(a, b), true
+				case token.QUO:
+					if b.Sign() == 0 {
+						return nil, false
+					}
+					return new(big.Int).Quo(a, b), true
+				case token.SHR:
+					return new(big.Int).Rsh(a, uint(b.Uint64())), true
+				}
+			case *ast.CallExpr:
+				if tv, ok := p.Info.Types[x.Fun]; ok && tv.IsType() && len(x.Args) == 1 {
+					return eval(x.Args[0], l)
+				}
+			}
+			return nil, false
+		}
+		bad := ""
+		for l := int64(1); l <= int64(64*limbs) && bad == ""; l++ {
+			tv, ok := eval(estExpr, l)
+			if !ok || !tv.IsInt64() {
+				bad = "the estimate expression could not be evaluated"
+				break
+			}
+			t := tv.Int64()
+			if t < 0 || int(t) >= len(tab.rows) {
+				bad = fmt.Sprintf("bit length %d gives the estimate %d, outside the table of %d powers", l, t, len(tab.rows))
+				break
+			}
+			lo := new(big.Int).Lsh(big.NewInt(1), uint(l-1))
+			hi := new(big.Int).Sub(new(big.Int).Lsh(big.NewInt(1), uint(l)), big.NewInt(1))
+			if t >= 1 && pow10(int(t-1)).Cmp(lo) > 0 {
+				bad = fmt.Sprintf("bit length %d gives the estimate %d, but 2^%d has only %d digits: one downward correction is not enough", l, t, l-1, len(lo.String()))
+			} else if pow10(int(t+1)).Cmp(hi) <= 0 {
+				bad = fmt.Sprintf("bit length %d gives the estimate %d, but 2^%d-1 = %s is at least 10^%d: the result is one too small for the values from 10^%d up (the correction only goes down)", l, t, l, hi.String(), t+1, t+1)
+			}
+		}
+		c.check(bad == "", key, fd, fmt.Sprintf("the digit estimate is within one (from above) of floor(log10) for every bit length 1..%d", 64*limbs), name+": "+bad, props...)
+	}
 }
